@@ -5,6 +5,7 @@ A property plugin subclasses LineCheck and provides the family-specific parts.
 Cases are single text lines; the C harness and the extracted model both answer
 one line per case."""
 import hashlib
+import re
 import os
 import shutil
 import sys
@@ -271,6 +272,8 @@ class LineCheck:
                    "broken correspondence: %s\nfirst diverging case: %s\n%s\nfirst difference: %s\nmodel: %s\nimpl:  %s\n"
                    % (self.pid, self.corr_name, len(st["div"]), st["n"], self.corr_name, cases[idx], self.describe(cases[idx]),
                       why, st["mres"][idx][0], st["ires"][idx][0]))
+            if pst and pst.get("broken"):
+                txt += "proof obligations that no longer check as well (theorem / link file named by coqc):\n%s\n" % pst["broken"][:3000]
             ctx.verdict.report("corr", "correspondence broken", txt, has_input=False)
 
     def shrink(self, ctx, case):
@@ -313,11 +316,30 @@ def first_diff(a, b):
     return "length: model %d segments vs impl %d" % (len(sa), len(sb))
 
 
+def _enclosing_statement(relpath, lineno):
+    """name of the Lemma / Theorem / Definition of coq/<relpath> whose text contains line `lineno` (for error messages)"""
+    try:
+        txt = open(os.path.join(vlib.COQ, relpath)).read().splitlines()
+    except OSError:
+        return None
+    for j in range(min(lineno, len(txt)) - 1, -1, -1):
+        m = re.match(r"\s*(Theorem|Lemma|Corollary|Example|Definition|Fixpoint)\s+(\w+)", txt[j])
+        if m:
+            return "%s %s" % (m.group(1), m.group(2))
+    return None
+
+
 def _first_error(out):
     lines = out.splitlines()
     for i, l in enumerate(lines):
         if l.startswith("File ") and i + 1 < len(lines):
-            return " ".join(lines[i:i + 4])[:600]
+            msg = " ".join(lines[i:i + 4])[:600]
+            m = re.match(r'File "\./(theories/[^"]+)", line (\d+)', l)
+            if m:
+                who = _enclosing_statement(m.group(1), int(m.group(2)))
+                if who:
+                    msg = "[%s of %s no longer checks] %s" % (who, m.group(1), msg)
+            return msg
     return out[-400:]
 
 
